@@ -2,7 +2,14 @@
 open Model
 open Glue
 
-let key_of (i : int) : n list = s2l_ascii (Printf.sprintf "k%02d" i)
+(* the second key universe (a case line whose key count is 11): harness/src/object.rs EXOTIC *)
+let exotic : int list array = [| [0xffff]; [0x10000]; [0xe000; 0x61]; [0x10ffff]; []; [0xe9]; [0x6b]; [0x6b; 0x30];
+                                 [0xd7ff; 0x10000]; [0xd7ff; 0xe000]; [0x10000; 0xe000] |]
+let exotic_keys = ref false
+let set_universe (nk : str) = exotic_keys := (nk = "11")
+let key_of (i : int) : n list =
+  if !exotic_keys && i < Array.length exotic then List.map n_of_int exotic.(i)
+  else s2l_ascii (Printf.sprintf "k%02d" i)
 let absent_key : n list = s2l_ascii "absent"
 let val_of (v : int) : value = VNum (s2l_ascii (string_of_int v))
 
@@ -11,6 +18,11 @@ let ascii_of (l : n list) : str =
 
 let vstr = function VNum s -> ascii_of s | v -> "?" ^ value_str v
 let kidx (k : n list) : str =
+  let ex = if !exotic_keys then
+      (let ki = List.map int_of_n k in
+       let rec find i = if i >= Array.length exotic then None else if exotic.(i) = ki then Some i else find (i + 1) in find 0)
+    else None in
+  match ex with Some i -> string_of_int i | None ->
   let s = ascii_of k in
   match int_of_string_opt (Stdlib.String.sub s 1 (Stdlib.String.length s - 1)) with
   | Some i when s.[0] = 'k' -> string_of_int i
@@ -65,6 +77,8 @@ let apply (o : obj) (op : str) : obj * str =
     let (o', u) = unopt (remove_unique o (key_of (n 1))) in
     (o', match u with UNone -> "none" | UOne e -> "one " ^ estr e | UDup (a, b) -> "dup " ^ estr a ^ " " ^ estr b)
   | "sort" -> (unopt (sort o), "ok")
+  | "canon" -> (unopt (sort_with canon_entry_cmp o), "ok")
+  | "extpanic" -> (o, "ok")
   | "goi" | "gmoi" ->
     let (o', v) = unopt (get_or_insert_with o (key_of (n 1)) (val_of (n 2))) in (o', vstr v)
   | "set" ->
@@ -129,6 +143,9 @@ let m_apply (es : (n list * value) list) (op : str) : (n list * value) list * st
     (es', match u with MNone -> "none" | MOne e -> "one " ^ estr e | MDup (a, b) -> "dup " ^ estr a ^ " " ^ estr b)
   | "sort" ->
     (List.stable_sort (fun a b -> match entry_cmp a b with Lt -> -1 | Eq -> 0 | Gt -> 1) es, "ok")
+  | "canon" ->
+    (List.stable_sort (fun a b -> match canon_entry_cmp a b with Lt -> -1 | Eq -> 0 | Gt -> 1) es, "ok")
+  | "extpanic" -> (es, "ok")
   | "goi" | "gmoi" -> let (es', v) = m_get_or_insert_with es (key_of (n 1)) (val_of (n 2)) in (es', vstr v)
   | "set" ->
     (match List.nth_opt (m_indexes_of es (key_of (n 1))) (n 2) with
@@ -170,6 +187,7 @@ let run toks =
   match toks with
   | "h" :: nk :: ops ->
     let nkeys = i2 nk in
+    set_universe nk;
     let model =
       try
         let (o, rs) = List.fold_left (fun (o, rs) op -> let (o', r) = apply o op in (o', r :: rs)) (empty_obj, []) ops in
